@@ -493,8 +493,12 @@ def dtype_combos(pts):
         combos += [('u2', 'u2'), ('u2', 'i2')]
         if max(ras) <= 255:
             combos += [('u1', 'u1'), ('u1', 'd')]
-    if max(ras) <= 127 and max(abs(d) for d in decs) <= 90:
-        combos += [('i1', 'i1')]
+    if max(ras) <= 127:
+        combos += [('i1', 'i1'), ('i1', 'd')]
+    # the declination always fits int8 (so does its value, not necessarily its RANGE, in the narrow type)
+    combos += [('d', 'i1'), ('i2', 'i1')]
+    if max(ras) <= 255:
+        combos += [('u1', 'i1')]
     return combos
 
 
@@ -538,7 +542,8 @@ def near_pairs():
 
 def gen_whole(rng):
     """Whole-degree positions (exactly representable in every dtype used)."""
-    kind = rng.choice(['chain', 'chain', 'box', 'ubox', 'ubox', 'polar', 'demo', 'lattice', 'lattice', 'nearL', 'nearL'])
+    kind = rng.choice(['chain', 'chain', 'box', 'ubox', 'ubox', 'polar', 'demo', 'lattice', 'lattice', 'nearL', 'nearL',
+                       'span', 'span', 'span'])
     L = rng.choice([0.5, 0.9, 1.1, 1.3, 1.5, 2.2, 2.5, 3.3, 4.7])
     if kind == 'demo':
         pts = [(float(x), 0.0) for x in range(0, 40, 2)]
@@ -565,6 +570,23 @@ def gen_whole(rng):
         pts = [(float(r0), float(sgn * d1)), (float((r0 + dra) % 360), float(sgn * d2))]
         for k in range(rng.randint(0, 3)):
             pts.append((float((r0 + 150 + 20 * k) % 360), float(sgn * max(0, d1 - 30))))
+    elif kind == 'span':          # the RANGE of the values strains the narrow integer types (max - min, differences)
+        sub = rng.choice(['dec', 'dec', 'ra8', 'all', 'all'])
+        L = rng.choice([1.5, 2.5, 4.7, 9.5, 14.5, 5, 10])
+        if sub == 'dec':          # pole to pole (or nearly): declinations spanning more than 127 degrees, RA within int8
+            step = rng.choice([15, 30, 45, 9, 10])
+            lo = rng.choice([-90, -90, -80, -64])
+            r0 = rng.randint(0, 100)
+            pts = [(float(r0 + (k * rng.choice([0, 1, 7])) % 27), float(d)) for k, d in enumerate(range(lo, 91, step))]
+            pts += [(float(r0 + rng.randint(0, 27)), float(rng.randint(-90, 90))) for _ in range(rng.randint(0, 8))]
+        elif sub == 'ra8':        # RA spanning more than 127 (up to 255) degrees, declination >= 0: the unsigned 8-bit range
+            d0 = rng.randint(0, 70)
+            pts = [(float(r), float(d0 + rng.randint(0, 6))) for r in range(0, 256, rng.choice([5, 15, 17, 51]))]
+            pts += [(float(rng.choice([0, 127, 128, 255])), float(d0)) for _ in range(2)]
+        else:                     # whole-degree all-sky scatter: the full domain of RA and Dec
+            pts = [(float(rng.randint(0, 359)), float(rng.randint(-90, 90))) for _ in range(rng.randint(6, 40))]
+            pts += [(float(rng.randint(0, 359)), 90.0), (float(rng.randint(0, 359)), -90.0)]
+        pts = list(dict.fromkeys(pts))
     elif kind == 'lattice':       # whole-degree lattice and a whole-degree linking length that no lattice distance equals
         step, L = rng.choice([(2, 3), (3, 4), (3, 2), (2, 1), (5, 6), (4, 5)])
         d0 = rng.choice([rng.randint(-60, 50), rng.randint(0, 50), 90 - 3 * step])
@@ -597,6 +619,33 @@ def make_dtype_sets(rng, count):
             if 'f4' in dt:
                 s['band'] = F32_BAND
             out.append(s)
+    return out
+
+
+def make_rings(rng, full):
+    """Systematic polar rings: m points on a small circle around a pole, neighbours separated by f * L on the sphere
+    although their RA differ by 360/m degrees (the flat-sky estimate dRA * cos(Dec) exceeds the true separation by up
+    to 20 %), so the ring is one group held together only by links between points far apart in RA; variant with the
+    pole itself added; both poles; also in permuted order."""
+    out = []
+    for m in range(3, 13):
+        for f in ((0.9, 0.97) if full else (0.97,)):
+            for L in ((0.3, 1.0, 3.0) if full else (1.0, 0.05 + 0.25 * (m % 3))):
+                for sign in (1, -1):
+                    srho = math.sin(math.radians(f * L / 2.0)) / math.sin(math.pi / m)
+                    if srho >= 0.5:
+                        continue
+                    rho = math.degrees(math.asin(srho))
+                    ra0 = 353.3 if m % 2 else 17.3
+                    pts = [(wrap_ra(ra0 + k * 360.0 / m), sign * (90.0 - rho)) for k in range(m)]
+                    if (m + (sign > 0)) % 2:
+                        pts.append((120.0, sign * 90.0))
+                    pts.append((200.0, sign * (90.0 - rho - 2.5 * L)))      # an outsider
+                    cs = admissible_chunksize(pts, L, None if m % 3 else 4.0 * L)
+                    out.append({'ra': [p[0] for p in pts], 'dec': [p[1] for p in pts], 'L': L, 'cs': cs, 'tag': 'ring'})
+                    q = list(pts)
+                    rng.shuffle(q)
+                    out.append({'ra': [p[0] for p in q], 'dec': [p[1] for p in q], 'L': L, 'cs': cs, 'tag': 'ring-perm'})
     return out
 
 
@@ -656,7 +705,8 @@ def run(ctx):
         'input representation: numpy arrays (spheregroup reads ra.size, so Python lists are outside its interface); the numeric '
         'TYPE of every argument is a dimension of the recorded runs: whole-degree sets (chains and lattices across the RA seam, '
         'boxes, polar caps incl. Dec = 90) are given as float64, int64, int32, int16, int8, uint16, uint8 (as the values fit), '
-        'mixed ra/dec dtypes and float32; linklength and chunksize as Python float/int, numpy int64/int32/int16/uint16/uint8/float64 '
+        'mixed ra/dec dtypes and float32, including sets whose RANGE exceeds the narrow type although every value fits (int8 '
+        'declinations from pole to pole, uint8 RA spanning 0..255, int16 over the whole sphere); linklength and chunksize as Python float/int, numpy int64/int32/int16/uint16/uint8/float64 '
         'scalars and 0-d arrays; the expected partition is the oracle\'s on the float64 VALUES. float32 input only with whole-degree '
         'positions and pairs within 1e-3 relative of the linking length left open (nothing is asserted at float32 resolution). '
         'Replayed covers rotate float64/int64/int32/int16/uint16/uint8 coordinate arrays',
@@ -753,6 +803,7 @@ def run(ctx):
         sets = make_sets(rng, 2000, 70, nbig=40, bigmax=260)
         sweep, missing = make_sweep(rng, 400, False)
     sets += sweep
+    sets += make_rings(random.Random(ctx.seed + 7), not ctx.quick)    # own stream: the other families keep theirs
     sets += make_dtype_sets(rng, 45 if ctx.quick else 120)
     recs, kept = [], []
     skipped = 0
